@@ -111,7 +111,7 @@ def oracle_a(data, offsets):
 # -- oracle B ------------------------------------------------------------------------------------
 
 class World:
-    def __init__(self, warm, sid, simple=False, collecting=False):
+    def __init__(self, warm, sid, simple=False, collecting=False, started=True):
         self.simple = simple
         self.loop = VLoop().install()
         self.seam = RandomSeam(Choice())
@@ -139,9 +139,17 @@ class World:
             self.inst = sd.ServiceInstance(cfg_.Service(sid, 1, 1, 0, eventgroups=frozenset({5})), self.sl,
                                            self.prot.announcer, self.prot.timings)
             self.prot.announcer.announce_service(self.inst)
-        self.prot.start()
+        if started:
+            self.prot.start()
+        # else: the endpoint exists and receives, its instance is announced, start() has not been called yet
         self.loop.run_until(0.25)
-        if warm:
+        if warm and not started:
+            # the sender is known with a high session id on both channels: every seed is reboot evidence
+            for mc in (True, False):
+                self.prot.datagram_received(
+                    refcodec.sd_message(0x7000, [("offer", sid + 1, 1, 1, 3, 0, (refcodec.v4("192.0.2.9", 30501),), ())]), SENDER, mc)
+            self.loop.run_until(0.5)
+        elif warm:
             v4 = refcodec.v4("192.0.2.9", 30501)
             for mc, sess in ((True, 1), (False, 1)):
                 self.prot.datagram_received(
@@ -220,8 +228,8 @@ def twin_of(data):
 _TWIN_CACHE = {}
 
 
-def world_result(warm, sid, data, multicast, simple=False, collecting=False):
-    w = World(warm, sid, simple, collecting)
+def world_result(warm, sid, data, multicast, simple=False, collecting=False, started=True):
+    w = World(warm, sid, simple, collecting, started)
     try:
         if data:
             exc = w.deliver(data, multicast)
@@ -236,17 +244,23 @@ def world_result(warm, sid, data, multicast, simple=False, collecting=False):
         w.close()
 
 
-def oracle_b(data, sid, with_simple=False):
+NOT_STARTED_SEEDS = ("sd-find", "sd-offer-v4", "sd-subscribe-cfg", "sd-unicast-flag-clear", "sd-stop-subscribe", "two-messages")
+
+
+def oracle_b(data, sid, with_simple=False, with_not_started=False):
     out = []
     tw = twin_of(data)
-    combos = [(warm, mc, False, False) for warm in (False, True) for mc in (False, True)]
+    combos = [(warm, mc, False, False, True) for warm in (False, True) for mc in (False, True)]
     if with_simple:
-        combos.append((True, False, True, False))
-        combos.append((True, False, False, True))
-    for warm, mc, simple, collecting in combos:
+        combos.append((True, False, True, False, True))
+        combos.append((True, False, False, True, True))
+    if with_not_started:
+        combos.append((True, False, False, False, False))
+    for warm, mc, simple, collecting, started in combos:
         if True:
-            exc, obs, loopexc, swallowed = world_result(warm, sid, data, mc, simple, collecting)
+            exc, obs, loopexc, swallowed = world_result(warm, sid, data, mc, simple, collecting, started)
             where = f"{'warm' if warm else 'fresh'} discovery endpoint{' with a SimpleService listener' if simple else ''}" \
+                    f"{'' if started else ' whose announced instance has not been started yet'}" \
                     f"{' at the end of a send-collection period for the sender' if collecting else ''}, " \
                     f"{'multicast' if mc else 'unicast'}"
             if exc:
@@ -256,9 +270,9 @@ def oracle_b(data, sid, with_simple=False):
                 out.append(("receive-path", f"loop-exception-{loopexc[0][2]}", f"{where}: {loopexc[:1]}"))
             if swallowed:
                 out.append(("receive-path", f"swallowed-{swallowed[0][1]}", f"{where}: {swallowed[:1]}"))
-            k = (warm, mc, simple, collecting, tw)
+            k = (warm, mc, simple, collecting, started, tw)
             if k not in _TWIN_CACHE:
-                _TWIN_CACHE[k] = world_result(warm, sid, tw, mc, simple, collecting)[1]
+                _TWIN_CACHE[k] = world_result(warm, sid, tw, mc, simple, collecting, started)[1]
             if obs != _TWIN_CACHE[k]:
                 t = _TWIN_CACHE[k]
                 what = "state" if obs[0] != t[0] else ("callbacks" if obs[1] != t[1] else "transmissions")
@@ -323,7 +337,8 @@ def part(args):
         for clause, disc, detail, which in va:
             viols.append((clause, disc, f"{which}: {detail}", dict(seed=name, mutation=mname, data=data, oracle="A")))
         if live:
-            for clause, disc, detail in oracle_b(data, sid, name in ("sd-subscribe-cfg", "sd-stop-subscribe")) + service_endpoint(data):
+            for clause, disc, detail in oracle_b(data, sid, name in ("sd-subscribe-cfg", "sd-stop-subscribe"),
+                                                    name in NOT_STARTED_SEEDS) + service_endpoint(data):
                 viols.append((clause, disc, detail, dict(seed=name, mutation=mname, data=data, oracle="B")))
     return n, viols[:200], classes, len(viols)
 
@@ -390,7 +405,8 @@ def replay(ctx, body):
         if name == c.get("seed"):
             offs = offsets_of(sb)
     va, cls = oracle_a(data, offs)
-    vb = oracle_b(data, sid, c.get("seed") in ("sd-subscribe-cfg", "sd-stop-subscribe")) + service_endpoint(data)
+    vb = oracle_b(data, sid, c.get("seed") in ("sd-subscribe-cfg", "sd-stop-subscribe"),
+                  c.get("seed") in NOT_STARTED_SEEDS) + service_endpoint(data)
     print("decoder outcome classes:", cls)
     for v in va + vb:
         print("FAILS:", v)
